@@ -100,7 +100,7 @@ Proof.
   induction items as [|i items IH]; intros Sg Gi acc Sg' Gi' Gs HG Hi Hd.
   - injection Hi as _ <-. injection Hd as <-. exact HG.
   - destruct i as [n d|n ps qs]; [|discriminate]. cbn [init_gates gdefs] in Hi, Hd.
-    destruct (init_body Sg (gd_params d) (gd_qubits d) (gd_body d)) as [[|c cs]|] eqn:Eb; try discriminate.
+    destruct (init_body Sg (gd_params d) (gd_qubits d) (gd_body d)) as [cs|] eqn:Eb; try discriminate.
     eapply IH with (acc := (n, d) :: acc); [reflexivity| |exact Hd].
     rewrite conv_cons. rewrite <- HG. rewrite <- (init_body_calls _ _ _ _ _ Eb). exact Hi.
 Qed.
